@@ -64,6 +64,9 @@ def run_native(module, fn, payload, timeout=600):
 
 
 def main(argv=None):
+    sys.setrecursionlimit(50000)
+    import threading
+    threading.stack_size(512 * 1024 * 1024)
     ap = argparse.ArgumentParser()
     ap.add_argument('prop')
     ap.add_argument('--tier', default=os.environ.get('VERIF_TIER', 'quick'))
@@ -102,10 +105,9 @@ def main(argv=None):
         return 2
     timeout_ms = 10000 if args.tier == 'quick' else 60000
     repo = Repo()
-    results = []
-    for u in units:
-        r = verify.run_unit(u, repo, timeout_ms=timeout_ms, seed=seed)
-        results.append(r)
+    results = _run_units(units, timeout_ms, seed)
+    for r in results:
+        u = r.unit
         if args.v:
             print(f'  unit {u.name}: {r.status} paths={r.paths} live={r.live_paths} '
                   f'clauses={ {k: c.status for k, c in r.clauses.items()} } wall={r.wall:.1f}s')
@@ -140,6 +142,9 @@ def main(argv=None):
                 discharged += 1
             elif c.status == 'unknown':
                 undecided.append((r, f'{ob}: solver returned unknown'))
+            elif c.status == 'refuted' and '/invariant-' in cname:
+                # a loop invariant that does not go through is a failed proof, not a violation
+                undecided.append((r, f'{ob}: candidate loop invariant not inductive'))
             elif c.status == 'refuted':
                 k = next((k for k in known if k.get('obligation') == ob), None)
                 if k is not None:
@@ -177,7 +182,7 @@ def main(argv=None):
         ob = f'{r.unit.name}/{cname}'
         reproduced = None
         chosen = None
-        for cand in c.refuted[:20]:
+        for cand in c.refuted[:4]:
             if r.unit.replay is None:
                 break
             mod, fn = r.unit.replay.split(':')
@@ -215,6 +220,42 @@ def main(argv=None):
     print(f'{prop}: obligations={obligations} discharged={discharged} known-findings={len(known_hits)} '
           f'violations={len(violations)} undecided={len(undecided)} wall={time.time() - t0:.1f}s exit={exit_code}')
     return exit_code
+
+
+def _one(args):
+    i, prop, timeout_ms, seed = args
+    from . import verify
+    from .source import Repo
+    u = verify.UNITS[prop][i]
+    r = verify.run_unit(u, Repo(), timeout_ms=timeout_ms, seed=seed)
+    r.unit = None          # re-attached by the parent
+    return i, r
+
+
+def _run_units(units, timeout_ms, seed):
+    """Units are independent: run them in forked worker processes (all cores)."""
+    from . import verify
+    if not units:
+        return []
+    prop = units[0].prop
+    allu = verify.UNITS[prop]
+    idx = [allu.index(u) for u in units]
+    jobs = int(os.environ.get('VERIF_JOBS', '0') or 0) or min(len(units), os.cpu_count() or 1)
+    out = {}
+    if jobs <= 1 or len(units) == 1:
+        for i in idx:
+            out[i] = _one((i, prop, timeout_ms, seed))[1]
+    else:
+        import multiprocessing as mp
+        ctx = mp.get_context('fork')
+        with ctx.Pool(jobs) as pool:
+            for i, r in pool.imap_unordered(_one, [(i, prop, timeout_ms, seed) for i in idx]):
+                out[i] = r
+    res = []
+    for i in idx:
+        out[i].unit = allu[i]
+        res.append(out[i])
+    return res
 
 
 def confirm_known(k, by_name, r, c, cm):
